@@ -9,10 +9,11 @@ The damaged bytes are classified by sim.ipsref independently of a816.
 """
 from __future__ import annotations
 
+import os
 import random
 from typing import Any, Iterator
 
-from .. import core, entries, ipsref, progen
+from .. import core, entries, ipsref, progen, simenv
 from ..runner import Stats, Violation
 from ..runner import should_stop as runner_should_stop
 from .c14 import twin_of
@@ -39,6 +40,8 @@ REQUIRED_REACH = [
     "probe:rle_zero_run_followed_by_records",
     "probe:long_rle_followed_by_rle",
     "probe:record_lands_at_start_of_image",
+    "probe:patch_path_through_symlink_and_dotdot",
+    "probe:one_directive_expanded_twice_with_different_deltas",
     "probe:eof_marker_straddles_refill",
     "probe:truncated_in:payload",
     "probe:truncated_in:rec_offset",
@@ -181,7 +184,7 @@ def gen_case(cseed: int, tier: str) -> dict[str, Any]:
         recs = recs[:k] + [low_first] + recs[k:]
     slots = [s for s in progen.iter_slots(prog) if s["assembled"] and not (s["file"] == "main.s" and not s["path"] and s["pos"] == 0)]
     slot = w.choice(slots)
-    dform = w.choice(["lit", "lit", "const", "const_reassigned", "const_signed", "macro_arg"])
+    dform = w.choice(["lit", "lit", "const", "const_reassigned", "const_signed", "macro_arg", "macro_arg"])
     return {
         "type": "base",
         "seed": cseed,
@@ -191,8 +194,9 @@ def gen_case(cseed: int, tier: str) -> dict[str, Any]:
         "delta_form": dform,
         "slot": slot,
         "via_writer": w.random() < 0.15 and all(r[1] == "plain" for r in recs),
-        "second_delta": (delta + 0x400000) if w.random() < 0.3 else None,
-        "patch_path": w.choice(["p.ips", "p.ips", "sub/p.ips", "a b/p-1.ips", "$ROOT$/p.ips", "$ROOT$/sub/p.ips"]),
+        "second_delta": (delta + 0x400000) if (w.random() < 0.3 or (dform == "macro_arg" and w.random() < 0.5)) else None,
+        "patch_path": w.choice(["p.ips", "p.ips", "sub/p.ips", "a b/p-1.ips", "$ROOT$/p.ips", "$ROOT$/sub/p.ips", "lnk/../p.ips", "sub/../p.ips", "./p.ips"]),
+        "decoy": w.random() < 0.5,
     }
 
 
@@ -227,7 +231,12 @@ def host_with_directive(case: dict[str, Any]) -> progen.Prog:
                 slot["path"] = [(slot["path"][0][0] + 1, slot["path"][0][1])] + [tuple(x) for x in slot["path"][1:]]
         prog = progen.insert_at(prog, slot, body)
         if case.get("second_delta") is not None:
-            prog.root.append({"k": "include_ips", "t": f".include_ips '{path0}', {case['second_delta']:#x}", "under_test": True})
+            sd = case["second_delta"]
+            if case["delta_form"] == "macro_arg":
+                # the same directive (one AST node, inside the macro body) expanded a second time with another delta
+                prog.root.append({"k": "apply", "t": f"inc_zq({sd:#x})" if sd >= 0 else f"inc_zq(-{-sd:#x})", "under_test": True})
+            else:
+                prog.root.append({"k": "include_ips", "t": f".include_ips '{path0}', {sd:#x}", "under_test": True})
         return prog
     if case.get("delta_form") in ("const", "const_reassigned"):
         text = f"DELTA_zq := {abs(delta):#x}"
@@ -334,6 +343,19 @@ def run_single(case: dict[str, Any], stats: Stats) -> list[Violation]:
     files = prog.all_files()
     roles = prog.all_roles()
     ppath = (case.get("patch_path") or "p.ips").replace("$ROOT$/", "")
+    if ppath.startswith("lnk/../"):
+        # 'lnk' is a symbolic link to deep/dir: the OS resolves lnk/.. to deep/, not to the directory
+        # the link lives in (where a decoy patch with other records may sit)
+        files["deep/dir/.keep"] = b""
+        files["lnk"] = simenv.symlink("deep/dir")
+        if case.get("decoy"):
+            files[ppath[len("lnk/../") :]] = ipsref.encode([(0x2F0000, "plain", b"decoy")])
+        ppath = "deep/" + ppath[len("lnk/../") :]
+        stats.bump("probe:patch_path_through_symlink_and_dotdot")
+    elif "/../" in ppath or ppath.startswith("./"):
+        if "/../" in ppath:
+            files[ppath.split("/../")[0] + "/.keep"] = b""  # the directory named before '..' exists
+        ppath = os.path.normpath(ppath)
     roles[ppath] = "ips_in"
     faults = case.get("faults") or []
     if not case.get("missing"):
@@ -372,6 +394,8 @@ def run_single(case: dict[str, Any], stats: Stats) -> list[Violation]:
         stats.bump("probe:patch_from_a816_ipswriter")
     if case.get("second_delta") is not None:
         stats.bump("probe:patch_included_twice")
+        if case.get("delta_form") == "macro_arg":
+            stats.bump("probe:one_directive_expanded_twice_with_different_deltas")
     if case["slot"]["ctx"] in ("macro_def", "for"):
         stats.bump("probe:directive_in_macro_or_loop")
     bs = knobs.get("bufsize") or 8192
